@@ -465,23 +465,25 @@ def check(prop, tier):
         print("KNOWN-FINDING: property=%s %s %s%s" % (prop, k, desc, "" if k in observed_known else " (not exercised in this run)"), flush=True)
     print("explored: %d executions, %d distinct non-trivial, %.0f/h; faults=%s" % (
         coverage["evaluations"], coverage["distinct_nontrivial"], coverage["runs_per_hour"], json.dumps(coverage["fault_kinds"], sort_keys=True)), flush=True)
+    if new_viol:
+        for k, path, v, out in new_viol:
+            print(out)
+            print("VIOLATION property=%s replay=%s" % (prop, path), flush=True)
+        if not selftest.get("ok"):
+            print("note: the same-seed processes of the determinism self-test also diverged (%s) - expected when the code under test is itself nondeterministic" % json.dumps(selftest.get("first_divergence")))
+        return 1
     if not selftest.get("ok"):
         trouble("determinism self-test failed: %s" % json.dumps(selftest))
     if sens and sens.get("applied") and not sens.get("detected"):
         trouble("sensitivity self-check: the deliberate break (%s) was NOT detected" % sens["mutation"])
     anomalies = int((stats.get("probes") or {}).get("sequential_anomaly_not_reproduced_in_fresh_process", 0))
-    if anomalies and not new_viol:
+    if anomalies:
         trouble("%d sequential anomalies (a call returned something else than when run alone) were observed inside worker processes "
                 "but none reproduced from its own workload in a fresh process; the property cannot be claimed to have held" % anomalies)
     if unreproduced:
         for k, path, rc, out in unreproduced:
             print("TROUBLE: violation %s did not reproduce on replay (exit %s); file kept at %s\n%s" % (k, rc, path, out))
         sys.exit(2)
-    if new_viol:
-        for k, path, v, out in new_viol:
-            print(out)
-            print("VIOLATION property=%s replay=%s" % (prop, path), flush=True)
-        return 1
     if coverage["evaluations"] == 0 or coverage["distinct_nontrivial"] < 2:
         trouble("nothing explored (evaluations=%d, distinct=%d)" % (coverage["evaluations"], coverage["distinct_nontrivial"]))
     print("OK property=%s held on everything explored (%.0fs)" % (prop, wall), flush=True)
